@@ -31,6 +31,7 @@ META = {
     'assumptions': ['parsing the text form of a number gives the number back (dependency contract)'],
 }
 META['bounds'].append('user symbols also parsed before their declaration (rejected), currency text before / after registration')
+META['bounds'].append('format / str / round trip over 5 sequences of equal-valued quantities x 3 specs; stdlib decimals with 35-41 digits, also under context precision 6')
 
 
 def setup(mode):
